@@ -376,7 +376,7 @@ def c12_purls(rng, n):
         yield f'B g {gens.hx("t")} {gens.hx("n")} C:{ops}'
         yield f'Q tC:{ops},tG'
 def c12_builders(rng, n):
-    raws = ['sha1:aabb,md5:01fe', 'SHA1:AABB,MD5:01FE', 'Sha1:aAbB,mD5:01fE', 'md5:00', 'b:00,a:ff', 'sha1:00,', 'sha1:', 'a:0', 'sha3-256:aa,sha3:bb', 'md5:,sha1:01']
+    raws = ['a:00,sha1:zz', 'md5:00,sha1:0', 'sha1:aabb,md5:01fe', 'SHA1:AABB,MD5:01FE', 'Sha1:aAbB,mD5:01fE', 'md5:00', 'b:00,a:ff', 'sha1:00,', 'sha1:', 'a:0', 'sha3-256:aa,sha3:bb', 'md5:,sha1:01']
     typed = ['i.' + gens.hx('sha1') + '.00', 'i.' + gens.hx('SHA256') + '.abcd+i.' + gens.hx('md5') + '.11', 'i.' + gens.hx('MD5') + '.01fe', 'w.' + gens.hx('Sha1') + '.' + gens.hx('AAbb'),
              'i.' + gens.hx('sha1') + '.-', '-']
     keys = ['checksum', 'Checksum', 'CHECKSUM']
